@@ -244,7 +244,8 @@ theorem observe_after_link (env1 : Env) (s2 : State) (m' : Mod) (i : Iface)
     (hbinds : ∀ n ∈ m'.importNames, m'.binds.lookup n = env1.lookup n ∧ (env1.lookup n).isSome = true)
     (hinl : m'.inl = [])
     (hlinked : ∀ n id, env1.lookup n = some (.func id) → funcLinked s2 id = true)
-    (n : Name) (u : Use) (hu : m'.imps.lookup n = some u) :
+    (n : Name) (u : Use) (hu : m'.imps.lookup n = some u)
+    (hnz : env1.lookup n ≠ some (.ext 0)) :
     observeImp s2 (codeMod env1 (installIface i (inlineMod m'))) (n, u) =
       (env1.lookup n).map Def.value := by
   have hmem : (n, u) ∈ m'.imps := mem_of_lookup hu
@@ -289,15 +290,27 @@ theorem observe_after_link (env1 : Env) (s2 : State) (m' : Mod) (i : Iface)
           · rw [hinl] at h1; cases h1
           · rw [hb] at h1; cases h1
       rw [this]
+      cases a with
+      | zero => exact absurd hd hnz
+      | succ a' => rfl
   | ptr =>
     cases d with
     | func id =>
       have := hlinked n id hd
       cases hx : (inlineMod m').inl.lookup n <;> simp [this, Def.value]
     | data id => cases hx : (inlineMod m').inl.lookup n <;> rfl
-    | ext a => cases hx : (inlineMod m').inl.lookup n <;> rfl
+    | ext a =>
+      cases a with
+      | zero => exact absurd hd hnz
+      | succ a' => cases hx : (inlineMod m').inl.lookup n <;> rfl
   | ref =>
-    cases hx : (inlineMod m').inl.lookup n <;> rfl
+    cases d with
+    | func id => cases hx : (inlineMod m').inl.lookup n <;> rfl
+    | data id => cases hx : (inlineMod m').inl.lookup n <;> rfl
+    | ext a =>
+      cases a with
+      | zero => exact absurd hd hnz
+      | succ a' => cases hx : (inlineMod m').inl.lookup n <;> rfl
 
 theorem drop_append_length {α} (a b : List α) : (a ++ b).drop a.length = b := by simp
 
@@ -309,7 +322,7 @@ theorem obs_aux {s : State} {r : List Op} {i : Iface} {res : Resolver} (hinv : I
     (hext : Extended res (s.queue.flatMap Mod.importNames) s.env env')
     (m m' : Mod) (hq : m ∈ s.queue) (hb : Bound env' m m') (hinl : m.inl = []) :
     (codeMod env' (installIface i (inlineMod m'))).id = m.id ∧
-      ∀ n u, m.imps.lookup n = some u →
+      ∀ n u, m.imps.lookup n = some u → wanted r res n ≠ some (.ext 0) →
         observeImp (callAll (link s (some i) res)) (codeMod env' (installIface i (inlineMod m')))
           (n, u) = (wanted r res n).map Def.value := by
   have hm'imps : m'.imps = m.imps := by rw [hb.1]
@@ -317,7 +330,7 @@ theorem obs_aux {s : State} {r : List Op} {i : Iface} {res : Resolver} (hinv : I
   have hm'id : m'.id = m.id := by rw [hb.1]
   refine ⟨?_, ?_⟩
   · rw [(codeMod_fields _ _).1]; simpa [installIface, inlineMod] using hm'id
-  · intro n u hu
+  · intro n u hu hnz
     have hlinked : ∀ n id, env'.lookup n = some (.func id) →
         funcLinked (callAll (link s (some i) res)) id = true := by
       intro n id hn
@@ -333,7 +346,6 @@ theorem obs_aux {s : State} {r : List Op} {i : Iface} {res : Resolver} (hinv : I
       intro n hn
       have : m'.importNames = m.importNames := by unfold Mod.importNames; rw [hm'imps]
       exact hb.2 n (this ▸ hn)
-    rw [observe_after_link env' _ m' i hbinds hm'inl hlinked n u (by rw [hm'imps]; exact hu)]
     have hnm : n ∈ m.importNames :=
       List.mem_map.2 ⟨(n, u), mem_of_lookup hu, rfl⟩
     have hw : env'.lookup n = wanted r res n := by
@@ -344,14 +356,15 @@ theorem obs_aux {s : State} {r : List Op} {i : Iface} {res : Resolver} (hinv : I
       | none =>
         have : n ∈ s.queue.flatMap Mod.importNames := mem_flatMap_importNames.2 ⟨m, hq, hnm⟩
         simp [this]
-    rw [hw]
+    rw [observe_after_link env' _ m' i hbinds hm'inl hlinked n u (by rw [hm'imps]; exact hu)
+      (by rw [hw]; exact hnz), hw]
 
 /-- state-level form of `observed_spec` -/
 theorem observed_after_link {s : State} {r : List Op} {i : Iface} {res : Resolver} (hinv : Inv s r)
     (hs : s.err = none) (h : (link s (some i) res).err = none)
     (hfl : FuncsLoaded (link s (some i) res)) :
     Forall2 (fun m m2 => m.inl = [] → m2.id = m.id ∧
-        ∀ n u, m.imps.lookup n = some u →
+        ∀ n u, m.imps.lookup n = some u → wanted r res n ≠ some (.ext 0) →
           observeImp (callAll (link s (some i) res)) m2 (n, u) = (wanted r res n).map Def.value)
       s.queue ((callAll (link s (some i) res)).done.drop s.done.length) := by
   obtain ⟨env', q', hr, heq⟩ := link_ok h hs
@@ -366,7 +379,7 @@ theorem observed_after_link {s : State} {r : List Op} {i : Iface} {res : Resolve
   rw [hdone]
   have key : Forall2 (fun m m' => m.inl = [] →
       (codeMod env' (installIface i (inlineMod m'))).id = m.id ∧
-        ∀ n u, m.imps.lookup n = some u →
+        ∀ n u, m.imps.lookup n = some u → wanted r res n ≠ some (.ext 0) →
           observeImp (callAll (link s (some i) res)) (codeMod env' (installIface i (inlineMod m')))
             (n, u) = (wanted r res n).map Def.value) s.queue q' := by
     refine hf.imp_mem ?_
